@@ -108,6 +108,14 @@ def make(targets=None, timeout=1500, jobs=16):
     """full .vo build of the given targets (all when None). returns (ok, log)"""
     with Lock():
         ensure_makefile()
+        for ex in glob.glob(os.path.join(COQ, "Extract", "Extract*.v")):
+            m = re.search(r'Extraction "\.\./ocaml/build/(\w+)/extracted\.ml"', open(ex).read())
+            if m:
+                d = os.path.join(VERIF, "ocaml", "build", m.group(1))
+                os.makedirs(d, exist_ok=True)
+                # a missing extracted.ml with an up-to-date .vo must be re-extracted
+                if not os.path.exists(os.path.join(d, "extracted.ml")) and os.path.exists(ex + "o"):
+                    os.remove(ex + "o")
         cmd = ["timeout", str(timeout), "make", f"-j{jobs}"] + (targets or [])
         p = subprocess.run(cmd, cwd=COQ, capture_output=True, text=True)
         log = p.stdout[-6000:] + p.stderr[-6000:]
